@@ -659,6 +659,38 @@ class BuiltinMixin:
             return self.ok(st, SV(boolv(AND(is_ref(t), z3.Select(st.CL, r_of(t)) == I(self.cls('function').id))), 'bool'))
         return self.ok(st, self.py_bool(False))
 
+    def bi_kiwipy_capture_exceptions(self, st, args, node):
+        """kiwipy.capture_exceptions(future, ignore=()): a context manager that stores an Exception raised by the body
+        in `future` (set_exception) and swallows it; BaseException-only classes propagate.  (kiwipy source, 8 lines.)"""
+        if len(args.pos) != 1 or args.kw:
+            raise Unsupported('capture_exceptions(future, ignore=...)', node)
+        fut = args.pos[0]
+        eng = self
+        self.assumptions_used.add('kiwipy.capture_exceptions modelled from its source: `except Exception as e: future.set_exception(e)`')
+
+        def enter(eng_, st_):
+            return [Out('ok', st_, eng.py_none())]
+
+        def exit_(eng_, body_out):
+            if body_out.kind != 'raise':
+                return [body_out]
+            st_ = body_out.st
+            exc = body_out.val
+            outs = []
+            t, f = eng.fork(st_, eng.isinstance_term(st_, exc, eng.cls('Exception')))
+            if t is not None:
+                for o in eng.getattr_v(t, fut, 'set_exception', node):
+                    if o.kind != 'ok':
+                        outs.append(o)
+                        continue
+                    for o2 in eng.call(o.st, o.val, Args([exc]), node):
+                        outs.append(Out('ok', o2.st) if o2.kind == 'ok' else o2)
+            if f is not None:
+                outs.append(Out('raise', f, exc))
+            return outs
+
+        return self.ok(st, CtxV(enter, exit_))
+
     def bi_functools_partial(self, st, args, node):
         if not args.pos:
             raise Unsupported('partial()', node)
